@@ -4,6 +4,7 @@
 package l1
 
 import (
+	"sort"
 	"context"
 	"encoding/binary"
 	"fmt"
@@ -190,6 +191,16 @@ func NewFixture() (*Fixture, sdk.Context) {
 	bk := bankkeeper.NewBaseKeeper(cdc, runtime.NewKVStoreService(keys[banktypes.StoreKey]), ak, blocked, authority, log.NewNopLogger())
 	if err := bk.SetParams(ctx, banktypes.DefaultParams()); err != nil {
 		panic(err)
+	}
+
+	// module accounts exist from genesis on a running chain
+	maccNames := make([]string, 0, len(maccPerms))
+	for name := range maccPerms {
+		maccNames = append(maccNames, name)
+	}
+	sort.Strings(maccNames)
+	for _, name := range maccNames {
+		ak.GetModuleAccount(ctx, name)
 	}
 
 	router := baseapp.NewMsgServiceRouter()
